@@ -2,6 +2,12 @@
 package main
 
 import (
+	"fmt"
+	"os"
+	"os/exec"
+	"path/filepath"
+	"strings"
+
 	"github.com/safing/portbase/modules"
 
 	"verif/slib"
@@ -53,8 +59,29 @@ func scenarios(c *vlib.Ctx) []*slib.Scn {
 func main() {
 	vlib.Main("C06", "model_checking", func(c *vlib.Ctx) {
 		c.Rule("complete (execution kind x panic value) table (15 kinds x 7 values) under the default schedule, plus for every kind the panicking item among 1-2 healthy items with all interleavings within the deviation bound, on the source-instrumented modules package; " +
-			"distinct_nontrivial = distinct observation traces per scenario")
+			"distinct_nontrivial = distinct observation traces per scenario; API part: every handler kind x 8 panic values x stage x method x dev mode with follow-up requests and all depth-2 (thorough 3) histories through the real mainHandler.ServeHTTP")
 		c.Assume("sequential consistency; data-race freedom outside the instrumented synchronisation operations; API request handlers are covered by the sequential api part of this check")
+		if c.Replay != "" {
+			if b, err := os.ReadFile(c.Replay); err == nil && strings.Contains(string(b), `"phase"`) {
+				// a witness of the sequential API part: replay it there
+				cmd := exec.Command("/verif/build/c06api", "-replay", c.Replay)
+				cmd.Stdout, cmd.Stderr = os.Stdout, os.Stderr
+				_ = cmd.Run()
+				c.Add(1, 1, 1)
+				return
+			}
+		}
 		slib.Run(c, scenarios(c), slib.Opts{})
+		if !c.IsShard() && c.Replay == "" {
+			// the sequential API part (HTTP request handlers) runs as one more worker
+			out := filepath.Join(os.TempDir(), fmt.Sprintf("c06api-%d.json", os.Getpid()))
+			defer os.Remove(out)
+			cmd := exec.Command("/verif/build/c06api", "-tier", c.Tier, "-shard", "0/1", "-out", out)
+			if b, err := cmd.CombinedOutput(); err != nil {
+				c.EngineError("api part failed: %v\n%s", err, string(b))
+			} else if err := c.MergeShard(out); err != nil {
+				c.EngineError("api part: %v", err)
+			}
+		}
 	})
 }
